@@ -12,10 +12,25 @@ import (
 	"time"
 
 	"github.com/GuanceCloud/platypus/pkg/ast"
+	"github.com/GuanceCloud/platypus/pkg/engine/runtime"
+	"github.com/GuanceCloud/platypus/pkg/errchain"
 	"github.com/GuanceCloud/platypus/pkg/inimpl/guancecloud/input"
 
 	conv "github.com/spf13/cast"
 )
+
+// runArg evaluates a builtin argument. An attribute expression (a.b) names the key "a.b"
+// (variable first, then the point) exactly like an identifier names its key; the evaluator
+// itself yields nothing for attribute expressions.
+func runArg(ctx *runtime.Task, node *ast.Node) (any, ast.DType, *errchain.PlError) {
+	if node != nil && node.NodeType == ast.TypeAttrExpr {
+		if v, err := ctx.GetKey(node.AttrExpr().String()); err == nil {
+			return v.Value, v.DType, nil
+		}
+		return nil, ast.Nil, nil
+	}
+	return runtime.RunStmt(ctx, node)
+}
 
 func getKeyName(node *ast.Node) (string, error) {
 	var key string
